@@ -72,6 +72,20 @@ impl TokenInner {
             sub_id: 0,
         }
     }
+
+    #[cfg(feature = "verif")]
+    pub(crate) fn verif_fields(self) -> (u32, u16, u16) {
+        (self.id, self.version, self.sub_id)
+    }
+
+    #[cfg(feature = "verif")]
+    pub(crate) fn verif_from_fields(id: u32, version: u16, sub_id: u16) -> TokenInner {
+        TokenInner {
+            id,
+            version,
+            sub_id,
+        }
+    }
 }
 
 impl From<usize> for TokenInner {
